@@ -234,19 +234,37 @@ T = {"continuous_bus_index": t_continuous_bus_index, "continuous_elements_index"
      "merge_parallel_line": t_merge_parallel_line}
 
 
-def classify(name, net, opts, msg):
+def classify(name, net, opts, msg, after=None):
     if name == "xward_by_internal" and float(net.sn_mva) != 1.0 and len(net.xward) and net.xward.in_service.any():
         return "replace_xward_impedance_ignores_sn_mva"
-    if name == "drop_inactive":
-        # in-service branch hanging on an out-of-service bus: the power flow keeps it as an open-ended branch, the toolbox drops it
+    if name == "drop_inactive" and after is not None:
+        # F21: the toolbox drops in-service branches that hang on an out-of-service bus (all branch types) or - for transformers,
+        # trafo3w and impedances, which have no open-switch handling there - on an unsupplied bus; the power flow keeps them as
+        # open-ended branches. Lines at an unsupplied bus behind their own open line switch are kept by the toolbox (correctly).
         sup, _isb = graph.supplied_buses(net)
-        oos = set(net.bus.index) - set(sup)      # out of service or unsupplied
+        oos = set(net.bus.index[~net.bus.in_service.values])
+        unsup = set(net.bus.index) - set(sup)
+        explained = unexplained = 0
         for el, cols in (("line", ("from_bus", "to_bus")), ("trafo", ("hv_bus", "lv_bus")), ("trafo3w", ("hv_bus", "mv_bus", "lv_bus")),
                          ("impedance", ("from_bus", "to_bus"))):
-            t = net[el][net[el].in_service.values] if len(net[el]) else net[el]
-            for c in cols:
-                if len(t) and t[c].isin(oos).any():
-                    return "drop_inactive_drops_open_ended_branch"
+            if not len(net[el]):
+                continue
+            kept = set(after[el].name) if len(after[el]) else set()
+            t = net[el][net[el].in_service.values]
+            for i, r in t.iterrows():
+                if r["name"] in kept:
+                    continue
+                ends = [int(r[c]) for c in cols]
+                et = {"line": "l", "trafo": "t", "trafo3w": "t3"}.get(el)
+                opened = set(net.switch.bus[(net.switch.et == et) & (net.switch.element == i) & ~net.switch.closed].values) if et and len(net.switch) else set()
+                if all((e in unsup) or (e in opened) for e in ends):
+                    continue                      # no live terminal: dropping it changes nothing
+                if any(e in oos for e in ends) or (el != "line" and any(e in unsup for e in ends)):
+                    explained += 1
+                else:
+                    unexplained += 1
+        if explained and not unexplained:
+            return "drop_inactive_drops_open_ended_branch"
     return None
 
 
@@ -296,16 +314,16 @@ def run_case(seed, tier, case_no):
             if st2 == "notconv":
                 tags.add("notconv_after:" + name)
                 continue
-            mech = classify(name, base, opts, st2)
+            mech = classify(name, base, opts, st2, n2)
             viols.append(common.viol("%s: original converged, transformed net ended with %s (%r)" % (name, st2, e2), mechanism=mech, options=opts, transform=name))
             continue
         msg = _cmp(ref, n2, opts, name, bus_subset=info.get("bus_subset"), rel_angle=info.get("rel_angle", False))
         compared += 1
         tags.add("T:" + name)
-        if msg and balanced(n2) and balanced(ref) and "bus voltages differ" in msg and classify(name, base, opts, msg) is None and False:
+        if False:
             alt += 1
             msg = None
         if msg:
-            viols.append(common.viol("%s: %s" % (name, msg), mechanism=classify(name, base, opts, msg), options=opts, transform=name))
+            viols.append(common.viol("%s: %s" % (name, msg), mechanism=classify(name, base, opts, msg, n2), options=opts, transform=name))
     sample["compared"] = compared
     return common.case(digest, nontrivial=compared >= 6, tags=tags, violations=viols[:6], sample=sample, evals=compared, extra={"compared": compared})
